@@ -72,8 +72,15 @@ TSide(g) ==
   \/ IsEv("ret.release", "s", "release") /\ SideRelSwap(g) /\ side'[g] = "idle" /\ Post(g)
   \/ IsEv("ret.release", "s", "") /\ SideRelRecv(g) /\ Post(g)
 
-TNext == TReset \/ TCancel \/ TEnd
-         \/ (l <= Len(Trace) /\ Ev.ev \notin {"reset", "cancel", "end"} /\ (TMain(Ev.g) \/ TSide(Ev.g)))
+\* the driver resumed a goroutine whose next step is a send on the full channel and it stayed blocked for 15 ms:
+\* the specification agrees that every spot is taken and that no step of that goroutine is enabled
+TProbe == /\ l <= Len(Trace) /\ Ev.ev = "probe.blocked" /\ l' = l + 1
+          /\ ch = N /\ ch = Ev.chlen
+          /\ ~ENABLED MainStep(Ev.g)
+          /\ UNCHANGED vars
+
+TNext == TReset \/ TCancel \/ TEnd \/ TProbe
+         \/ (l <= Len(Trace) /\ Ev.ev \notin {"reset", "cancel", "end", "probe.blocked"} /\ (TMain(Ev.g) \/ TSide(Ev.g)))
 TSpec == TInit /\ [][TNext]_tvars
 
 HW == TLCSet(1, IF TLCGet(1) < l THEN l ELSE TLCGet(1))
